@@ -654,6 +654,7 @@ class Sym:
             if r.outcome in ('break', 'continue'):
                 r.outcome = None
             if r.outcome is None:
+                r.notes.append(('loop-end-env', st.lineno, {nm: r.env.get(nm) for nm in s._assigned_names(st.body)}))
                 for nm in s._assigned_names(st.body):
                     r.env[nm] = ('loopvar', nm, st.lineno)
             out.append(r)
@@ -693,6 +694,7 @@ class Sym:
                     r.outcome = 'loop-back'
                     r.node = st
                 else:
+                    r.notes.append(('loop-end-env', st.lineno, {nm: r.env.get(nm) for nm in assigned}))
                     for nm in assigned:
                         r.env[nm] = ('loopvar', nm, st.lineno)
             res.append(r)
